@@ -16,6 +16,8 @@ type VerifRecord struct {
 	StagePoint        base.StagePoint
 	Voted             []string // node addresses in voted
 	Ballots           []string // node addresses waiting in ballots (suffrage not known at vote time)
+	Expels            []string // node addresses with recorded expels
+	VPs               []string // node addresses with a recorded voteproof
 	Ptr               uintptr  // identity of the record (never dereferenced)
 	IsSuffrageConfirm bool
 	Finished          bool
@@ -41,8 +43,18 @@ func verifSnapshotVoterecords(key string, vr *voterecords) VerifRecord {
 		r.Ballots = append(r.Ballots, k)
 	}
 
+	for k := range vr.expels {
+		r.Expels = append(r.Expels, k)
+	}
+
+	for k := range vr.vps {
+		r.VPs = append(r.VPs, k)
+	}
+
 	sort.Strings(r.Voted)
 	sort.Strings(r.Ballots)
+	sort.Strings(r.Expels)
+	sort.Strings(r.VPs)
 
 	return r
 }
